@@ -174,15 +174,19 @@ def workload(ctx):
             d = np.array([math.cos(t := rng.uniform(0, 2 * math.pi)), math.sin(t), 0.0])
         else:
             # next to tangency: polar angle from the axis chosen so that the discriminant is small but clearly signed
+            # polar angle from the rotation axis solved so that a^2+b^2 = c^2 (1 + u), u = +-10^-5.5 .. +-10^-1:
+            # just inside (two solutions) or just outside (none) the reachable band
             d = rng.normal(size=3)
-            d = d / np.linalg.norm(d)
-            a, b, c = coeffs(P, d * st)
-            # rescale the in-plane part so that a^2+b^2 ~ c^2 (1 +- 10^-u)
-            u = 10 ** rng.uniform(-5, -1) * rng.choice([-1, 1])
-            s = a * a + b * b
-            if s > 1e-12:
-                f = math.sqrt(max(c * c * (1 + u) / s, 1e-12))
-                d = np.array([d[0] * f, d[1] * f, d[2]])
+            u = 10 ** rng.uniform(-5.5, -1) * rng.choice([-1, 1])
+            nx, ny, nz = P[0]
+            np2 = nx * nx + ny * ny
+            qa, qb, qc = np2 + (1 + u) * nz * nz, 2 * (1 + u) * st * nz, (1 + u) * st * st - np2
+            disc = qb * qb - 4 * qa * qc
+            if disc >= 0 and qa > 0:
+                x = (-qb + rng.choice([-1, 1]) * math.sqrt(disc)) / (2 * qa)
+                if abs(x) < 1:
+                    t = rng.uniform(0, 2 * math.pi)
+                    d = np.array([math.sqrt(1 - x * x) * math.cos(t), math.sqrt(1 - x * x) * math.sin(t), x])
         d = d / np.linalg.norm(d)
         if i % 7 == 6 and prev_solve is not None:
             # histories: the previous reflection with one tilt changed, or the previous tilts with a new reflection
